@@ -96,7 +96,8 @@ class Executor:
             return
         if self.in_spec and kind in ("bounds", "nonnull"):
             return  # contract / spec text is not executable code: no run-time error obligations
-        name = f"{self.prop}/{self.fkey.replace(':', '.')}/{kind}[{tag}]/L{self.cur_line}#{len(self.obligations)}"
+        bits = "".join(x[-1] for x in st.trace)
+        name = f"{self.prop}/{self.fkey.replace(':', '.')}/{kind}[{tag}]/p{bits}/L{self.cur_line}#{len(self.obligations)}"
         self.obligations.append(Obligation(name=name, hyps=list(st.pc), goal=goal, kind=kind, func=self.fkey,
                                            line=self.cur_line, note=note))
 
